@@ -8,7 +8,8 @@
 (*          through the public getters                                       *)
 (*   write  node1.to_writer(..) -> xml1; tree1 = xml1 parsed strictly        *)
 (*   second Node::from_reader(xml1) -> doc2, node2 == node1                  *)
-(*   third  Node::try_from(&str xml1) -> doc3, node3 == node1                *)
+(*   third  Node::try_from(&str xml1) -> doc3, node3 == node1 (doc3 omitted  *)
+(*          and same = TRUE when the two read-backs are identical)           *)
 (* Clauses (MISMATCH; `dev` / `devs` name the listed deviations of XmlDoc    *)
 (* that reproduce the observation):                                          *)
 (*   harness-input  tree0 is Denote(doc)            (tool sanity)            *)
@@ -41,15 +42,20 @@ Back(r, doc1, clause) ==
               ELSE "none"
   IN  good \/ Report(clause, [dev |-> dev, got |-> IF r.ok THEN [ok |-> TRUE, eq |-> r.eq, same_doc |-> r.doc = doc1] ELSE r])
 
+(* subsets of the listed deviations, smallest first: the first one that reproduces the written tree is reported *)
+DevSets == << {}, {"root_tag_Node"}, {"absent_attr_written_empty"}, {"attr_ws_literal"},
+              {"root_tag_Node", "absent_attr_written_empty"}, {"root_tag_Node", "attr_ws_literal"},
+              {"absent_attr_written_empty", "attr_ws_literal"}, Devs34 >>
 Written(r, doc1) ==
   IF ~r.tree1.ok THEN Report("write-wellformed", [err |-> r.tree1.err, devs |-> <<"none">>])
   ELSE
     LET got == Canon(TreeOfJson(r.tree1.tree))
         ok(D) == got = Canon(DenoteD(doc1, D))
-    IN  IF ok({}) THEN TRUE
-        ELSE LET expl == {D \in SUBSET Devs34 : ok(D)}
-                 best == IF expl = {} THEN {} ELSE CHOOSE D \in expl : \A F \in expl : Cardinality(D) <= Cardinality(F)
-             IN  Report("write-denotes", [devs |-> IF expl = {} THEN <<"none">> ELSE AsSeq(best), root |-> got.tag])
+        RECURSIVE First(_)
+        First(i) == IF i > Len(DevSets) THEN 0 ELSE IF ok(DevSets[i]) THEN i ELSE First(i + 1)
+        hit == First(1)
+    IN  hit = 1
+        \/ Report("write-denotes", [devs |-> IF hit = 0 THEN <<"none">> ELSE AsSeq(DevSets[hit]), root |-> got.tag])
 
 XmlChecks(r) ==
   /\ ((r.tree0.ok /\ Canon(TreeOfJson(r.tree0.tree)) = Canon(Denote(r.doc))) \/ Report("harness-input", r.tree0))
@@ -59,7 +65,8 @@ XmlChecks(r) ==
        /\ (doc1 = r.doc \/ Note("first-read-differs", [x |-> 0]))
        /\ IF ~r.write.ok THEN Report("write-fails", r.write)
           ELSE /\ Back(r.second, doc1, "roundtrip")
-               /\ Back(r.third, doc1, "roundtrip-str")
+               /\ Back(IF r.third.ok /\ r.third.same THEN [ok |-> TRUE, eq |-> r.third.eq, doc |-> r.second.doc] ELSE r.third,
+                       doc1, "roundtrip-str")
                /\ Written(r, doc1)
 
 LineOk == LET r == Rec[l] IN IF r.ev = "Xml" THEN XmlChecks(r) ELSE TRUE
